@@ -17,6 +17,7 @@ Fixpoint tree_eqb (a b : tree) {struct a} : bool :=
   | TNull, TNull => true
   | TInt x, TInt y => Z.eqb x y
   | TObjRef _, TObjRef _ => true
+  | TStr x, TStr y => String.eqb x y
   | TArr l1, TArr l2 =>
       (fix go (l1 l2 : list (tkey * tree)) {struct l1} : bool :=
          match l1, l2 with
